@@ -16,7 +16,7 @@ LEVEL = "exploration"
 TECHNIQUE = (
     "Hypothesis grammar strategies for BD programs (value-directed expression trees, generated layout/comments) evaluated by a "
     "hand-written recursive-descent reference interpreter; differential against BDParser.parse and against the command objects "
-    "BootImageV21.load_from_config builds; one-unsupported-construct programs must be refused; layout metamorphic relation"
+    "BootImageV21.load_from_config builds; one-unsupported-construct programs must be refused; layout and name-case metamorphic relations"
 )
 LEVEL_TEXT = (
     "exploration: generated BD programs of the supported subset (options/constants/sources/keyblob blocks in any order, 1-3 sections, "
